@@ -30,6 +30,12 @@ def kind_gate_rule(fb, ctx, short, b):
     h = fb.hir_of(b)
     gates = [n for n in find_all(h["body"], lambda n: n.get("k") == "if") if hirq.err_variant(n["then"]) and find_all(n["cond"], lambda z: z.get("k") == "field" and z.get("name") == "kind") and find_all(n["cond"], lambda z: z.get("k") == "mcall" and z.get("name") == "is_some")]
     ok, found = False, None
+    if not gates:
+        # the same gate written as a guarded arm: `match c.kind { Some(_) if version < DATALOG_3_1 => return Err(..), .. }`
+        for m_ in find_all(h["body"], lambda z: z.get("k") == "match" and find_all(z.get("scrut"), lambda y: y.get("k") == "field" and y.get("name") == "kind")):
+            for arm in m_["arms"]:
+                if arm.get("guard") is not None and hirq.err_variant(arm["body"]) and any((v or "").endswith("::Some") for v in hirq.pat_variants(arm["pat"])) and not find_all(arm["pat"], lambda y: y.get("k") == "bind") :
+                    gates.append({"cond": arm["guard"], "ln": arm.get("ln", m_["ln"])})
     if len(gates) == 1:      # (a per-check gate inside the loop over the checks is fine: no check, no kind)
         for c in find_all(gates[0]["cond"], lambda z: z.get("k") == "binary" and z.get("op") in ("Eq", "Lt", "Le", "Ne", "Gt", "Ge")):
             consts = [(z["res"].get("path") or "").split("::")[-1] for z in find_all(c, lambda z: z.get("k") == "path" and re.search(r"(MIN_SCHEMA_VERSION|DATALOG_3_\d)$", z.get("res", {}).get("path") or ""))]
